@@ -11,8 +11,18 @@ use teos_common::protos as msgs;
 use tonic::transport::Server;
 use tonic::{Request, Response, Status};
 
-/// Finds a free loopback port (bind to 0, read it back, release).
+/// A free loopback port out of this process's own block (see plugbox::port_for): several check processes (and the
+/// parallel libFuzzer processes of one check) never pick the same one between "found free" and "bound by warp".
 pub fn free_port() -> u16 {
+    static NEXT: std::sync::atomic::AtomicUsize = std::sync::atomic::AtomicUsize::new(0);
+    let base = crate::plugbox::port_for(0, 0) as usize; // start of the block
+    for _ in 0..400 {
+        let k = NEXT.fetch_add(1, std::sync::atomic::Ordering::SeqCst) % 180;
+        let port = (base + 800 + k) as u16;
+        if TcpListener::bind(("127.0.0.1", port)).is_ok() {
+            return port;
+        }
+    }
     let l = TcpListener::bind("127.0.0.1:0").unwrap();
     l.local_addr().unwrap().port()
 }
